@@ -27,6 +27,7 @@ mod verif_c16 {
         Ok(())
     }
 
+//@@TABLE-BEGIN
     // complete: the whole lookup table
     #[kani::proof]
     fn valid_char_table() {
@@ -36,6 +37,8 @@ mod verif_c16 {
         kani::cover!(!valid_char(b));
     }
 
+//@@TABLE-END
+//@@ISVALID-BEGIN
     macro_rules! is_valid_bounded {
         ($name:ident, $n:expr, $unwind:expr) => {
             #[kani::proof]
@@ -56,6 +59,8 @@ mod verif_c16 {
     is_valid_bounded!(is_valid_matches_regex_len4, 4, 7);
     is_valid_bounded!(is_valid_matches_regex_len5, 5, 8);
 
+//@@ISVALID-END
+//@@API-BEGIN
     // ---- entry paths: accept <=> is_valid, accepted value renders back to the identical string ---------
     fn any_str3(buf: &[u8; 3]) -> Option<&str> {
         let len: usize = kani::any();
@@ -240,6 +245,8 @@ mod verif_c16 {
         kani::cover!(true);
     }
 
+//@@API-END
+//@@ISVALID-BEGIN
     // boundary literals from the property statement (concrete)
     #[kani::proof]
     #[kani::unwind(12)]
@@ -254,4 +261,5 @@ mod verif_c16 {
         assert!(!is_valid(bad[j]));
         kani::cover!(true);
     }
+//@@ISVALID-END
 }
